@@ -88,6 +88,7 @@ def l0_tie(res):
                                  expected="Fmt0.format0 (extracted) = the library's output, byte for byte"))
     if errs or not tot.get("records") or tot.get("records") != stats.get("records"):
         payloads.append(dict(kind="obligation", obligation=dict(correspondence="L0 tie", log="; ".join(errs) or "record count mismatch")))
+    tot = dict(tot, generated=dict((k, v) for k, v in stats.items() if k != "records"))
     return tot, payloads
 
 def c06_witness(res):
